@@ -94,7 +94,11 @@ impl log::Log for FlexiLogger {
         if special_target_is_used {
             let mut use_default = false;
             let targets = addressed_writers(target);
-            for t in targets {
+            for (i, t) in targets.iter().copied().enumerate() {
+                if targets[..i].contains(&t) {
+                    // a writer that is named more than once gets the record only once
+                    continue;
+                }
                 if t == "_Default" {
                     use_default = true;
                 } else {
